@@ -81,7 +81,7 @@ def main(tier):
         return None
 
     cl = layerb.corrupt_and_validate(events, over_budget)
-    chk.control("orthonormality-over-budget-rejected", cl is not None and "orthonormality-beyond-budget" in cl, str(cl))
+    chk.control("orthonormality-over-budget-rejected", cl is not None and "orthonormality-beyond-budget" in cl, str(cl), impl_dependent=True)
 
     def negative_volume(bad):
         for i, e in enumerate(bad):
@@ -91,7 +91,7 @@ def main(tier):
         return None
 
     cl = layerb.corrupt_and_validate(events, negative_volume)
-    chk.control("negative-volume-rejected", cl is not None and "negative-volume" in cl, str(cl))
+    chk.control("negative-volume-rejected", cl is not None and "negative-volume" in cl, str(cl), impl_dependent=True)
 
     def rewritten(bad):
         for i, e in enumerate(bad):
@@ -102,7 +102,7 @@ def main(tier):
 
     cl = layerb.corrupt_and_validate(events, rewritten)
     if cl is not None:
-        chk.control("rewritten-snapshot-rejected", "history-rewritten" in cl, str(cl))
+        chk.control("rewritten-snapshot-rejected", "history-rewritten" in cl, str(cl), impl_dependent=True)
 
     def two_snapshots(bad):
         for i, e in enumerate(bad):
@@ -115,7 +115,7 @@ def main(tier):
         return None
 
     cl = layerb.corrupt_and_validate(events, two_snapshots)
-    chk.control("two-snapshots-per-update-rejected", cl is not None and "not-one-snapshot-per-update" in cl, str(cl))
+    chk.control("two-snapshots-per-update-rejected", cl is not None and "not-one-snapshot-per-update" in cl, str(cl), impl_dependent=True)
     return chk.finish(
         rule="update histories drawn by tlc -simulate from PyDRexC01 (distinct call sequences), strain increment per call cycling over 0.2/0.1/0.05/0.4/0.02; every call judged by MineralTrace.tla",
         exhaustive=False,
